@@ -683,6 +683,44 @@ func solveAll(obs []*Obligation, dir string, timeoutS int, thorough bool, worker
 	}
 	close(ch)
 	wg.Wait()
+	// Second attempt for obligations that ended without an answer (time-out, not a model): a loaded
+	// machine must not turn a proof into an alarm.  They are retried a few at a time, so that each
+	// solver gets whole cores, with three times the budget.  A decisive first answer (sat or unsat)
+	// is never retried.
+	var again []*Obligation
+	for _, o := range obs {
+		if o.Expect == "unsat" && o.Status == "unknown" && o.SMTPath != "" {
+			again = append(again, o)
+		}
+	}
+	if len(again) == 0 || len(again) > 40 {
+		return
+	}
+	ch2 := make(chan *Obligation)
+	var wg2 sync.WaitGroup
+	for i := 0; i < 3; i++ {
+		wg2.Add(1)
+		go func() {
+			defer wg2.Done()
+			for o := range ch2 {
+				first := o.Secs
+				o.Status, o.Solver, o.Output, o.Model = "", "", "", nil
+				t := timeoutS
+				if o.Timeout > t {
+					t = o.Timeout
+				}
+				o.Timeout = 0
+				o.solve(dir, 3*t, thorough)
+				o.Secs += first
+				o.Retried = true
+			}
+		}()
+	}
+	for _, o := range again {
+		ch2 <- o
+	}
+	close(ch2)
+	wg2.Wait()
 }
 
 // parseGetValue extracts the values of a (get-value ...) answer in order.
